@@ -13,11 +13,16 @@ THEOREMS = {
         "C11_inv_step", "C11_inv_reachable", "C11_push_new", "C11_push_duplicate", "C11_push_replace", "C11_pop_min",
         "C11_head_min", "C11_empty_errors", "C11_get", "C11_remove", "C11_list_exact", "C11_list_all",
         "StrOp.startsWith_iff", "StrOp.endsWith_iff", "StrOp.contains_iff", "StrOp.equals_iff"]],
-    "C01": FACTS + ODO,
-    "C02": FACTS + ODO,
-    "C06": FACTS + ODO,
+    "C01": FACTS + ODO + [("QuartzModel.Theorems.C01", "Cron.C01_sound"), ("QuartzModel.Theorems.CronCode", "Cron.C01_sound_code"),
+                          ("QuartzModel.Proofs.CronAssembly", "Cron.allValid_iff_matches"), ("QuartzModel.Proofs.DaySpec", "Cron.dayValid_iff"),
+                          ("QuartzModel.Proofs.CalendarLemmas", "Cal.Civil.ofSeconds_toSeconds"), ("QuartzModel.Proofs.CalendarLemmas", "Cal.Civil.toSeconds_lt_iff")],
+    "C02": FACTS + ODO + [("QuartzModel.Theorems.C02", "Cron." + t) for t in ["C02_minimal", "C02_expired_iff", "C02_chain"]] +
+           [("QuartzModel.Theorems.CronCode", "Cron.C02_minimal_code"), ("QuartzModel.Theorems.CronCode", "Cron.C02_expired_iff_code"),
+            ("QuartzModel.Proofs.CronAssembly", "Cron.csmNext_spec_some"), ("QuartzModel.Proofs.CronAssembly", "Cron.csmNext_spec_none")],
+    "C06": FACTS + ODO + [("QuartzModel.Theorems.C06", "Cron." + t) for t in ["C06_total", "nextFire_ne_outOfFuel", "C06_single_pass"]] +
+           [("QuartzModel.Theorems.CronCode", "Cron.C06_total_code"), ("QuartzModel.Proofs.CronAssembly", "Cron.csmNext_ne_none")],
     "C07": FACTS + [("QuartzModel.Theorems.C07", "Cron." + t) for t in [
         "parse_wellFormed", "newTrigger_wellFormed", "parseField_inRange", "parseField_no_special", "parseDom_shape",
         "parseDow_shape", "C07_rejects_field_count", "C07_rejects_both_days", "C07_rejects_bad_step", "C07_macros",
-        "C07_whitespace", "C07_missing_year"]],
+        "C07_whitespace", "C07_missing_year"]] + [("QuartzModel.Theorems.CronCode", "Cron.C07_wellFormed_code")],
 }
